@@ -172,11 +172,9 @@ impl VisitMut for StmtMarker {
                         } else {
                             let len = b.stmts.len();
                             if let syn::Stmt::Expr(_, semi @ None) = &mut b.stmts[i] {
-                                if i + 1 != len {
-                                    *semi = Some(Default::default());
-                                } else {
-                                    lost(&format!("@after \"{}\": statement is a tail expression", self.text));
-                                }
+                                // a unit-typed tail (`if .. {} else {}` ending an arm) may be followed by ghost code; a value-typed tail
+                                // would make the woven text ill-typed, which the verifier reports (exit 2), so this is safe
+                                *semi = Some(Default::default());
                             }
                             b.stmts.insert(i + 1, mk_macro_stmt(&self.marker));
                             i += 1;
